@@ -6,6 +6,8 @@ import (
 	"strings"
 	"time"
 
+	"github.com/mgtv-tech/redis-GunYu/config"
+
 	"verifsim/rdbgen"
 	"verifsim/simredis"
 	"verifsim/simrt"
@@ -205,7 +207,20 @@ func runC20(r *Run, stratum string) *Violation {
 	case "chunked", "parallel", "bisync":
 		policy = []string{"ignore", "replace", "error"}[g.Choose("policy", 3)]
 	}
-	cfg.KeyExists = policy
+	// the policy reaches the replay the way a configuration file delivers it: spelled by the operator (any letter case)
+	// and normalised by the real config.ReplayConfig.fix()
+	spelled := policy
+	switch g.Choose("policycase", 4) {
+	case 1:
+		spelled = strings.ToUpper(policy)
+	case 2:
+		spelled = strings.ToUpper(policy[:1]) + policy[1:]
+	}
+	rc := &config.ReplayConfig{KeyExists: spelled}
+	if err := config.VerifFixReplay(rc); err != nil {
+		Inconc("replay configuration rejected: %v", err)
+	}
+	cfg.KeyExists = rc.KeyExists
 	if stratum == "bisync" {
 		cfg.Bisync = true
 		// one worker: the bidirectional path numbers its units with a counter shared by all workers, so with
